@@ -766,6 +766,7 @@ def run(rep, tier):
     rep.rule('R14b', 'recorded weight formula', floor=2)
     rep.rule('R14c', 'FVS / ISO collections are sub-collections by provenance', floor=2)
     rep.rule('R14g', 'create_candidate_cycles has no early return that loses candidates through the root', floor=1)
+    rep.rule('R07t', 'the set algorithms of the label comparator run over sorted ranges (consistent trees across roots)', floor=1)
     rep.rule('R14f', 'Horton\'s collection has a tree for every vertex of degree >= 2', floor=1)
     rep.rule('R14d', 'root node weight is zero', floor=1)
     rep.rule('R12b', 'first-in-path labels for every visited node including the root', floor=1)
@@ -781,6 +782,7 @@ def run(rep, tier):
     rep.rule('R01f', 'no candidate is removed from a collection unless it is an exact (tree, edge) duplicate', floor=0)
     for prog in progs.values():
         _c07.r07k(rep, prog, only_files=('lex_dijkstra', 'detail/util.hpp', 'sptrees', 'cycles.hpp', 'fvs.hpp'))
+        _c07.r07t(rep, prog, only_files=('lex_dijkstra', 'sptrees', 'cycles.hpp'))
         check_no_candidate_removed(rep, prog)
         check_candidate_completeness(rep, prog)
         n += check_program(rep, prog)
